@@ -818,6 +818,22 @@ func checkC19(c *Ctx) {
 					kv = append(kv, hx(key)+" "+enc)
 				}
 				top.Set(vals)
+				// the caller keeps its map: using it again - handing it to ANOTHER error and attaching more to that one, or
+				// changing it - must not reach the error under test (Set copies what it is given)
+				switch c.R.Intn(6) {
+				case 0:
+					decoy := &parser.NestedError{Err: errors.New("decoy"), Msg: "decoy"}
+					decoy.Set(vals)
+					decoy.Set(parser.ErrVals{"k": "from the decoy", "only_on_decoy": 1})
+					_ = decoy.Error()
+					c.count("callers_map_reused_for_another_error")
+				case 1:
+					for k := range vals {
+						vals[k] = "changed by the caller afterwards"
+					}
+					vals["added_by_the_caller_afterwards"] = true
+					c.count("callers_map_changed_afterwards")
+				}
 				sets++
 				fields = append(fields, "SET "+strings.Join(kv, " "))
 				hist = append(hist, fmt.Sprintf("Set(%v)", strings.Join(kv, ",")))
